@@ -108,9 +108,8 @@ def shared_inputs_rule(chk, prog):
         r10.maywrite(chk, cid, prog, eff, 'sp_' + p + 'gemv', {'y': ['[]']})
 
 
-def init_rule(chk, prog):
+def init_rule(chk, prog, cid='R1.v'):
     from ..facts import strip, callee_name, canon, loc
-    cid = 'R1.v'
     chk.clause(cid, 'work arrays initialised by the routine that hands them out')
     for (pat, arr, why) in INIT_TABLE:
         names = [pat.replace('?', p) for p in 'sdcz'] if '?' in pat else [pat]
